@@ -12,6 +12,8 @@ use vmodel::print::element_wrapper;
 
 pub struct Entry {
     pub prog: Program,
+    /// `from_none` runner for FromMeta roots
+    pub aux: Option<Runner>,
     /// root entry point (from_meta for FromMeta roots, the trait's entry for element-level)
     pub run: Runner,
 }
@@ -263,6 +265,78 @@ fn hostile_sweep(idx: usize, e: &Entry, t: &mut Tally) {
     }
 }
 
+/// Enum roots (C09): every whole-item form, every nested-item sequence up to `maxlen`, and the
+/// absent form.
+fn explore_enum(prop: &str, idx: usize, e: &Entry, maxlen: usize, t: &mut Tally) {
+    let ip = Interp::new(&e.prog);
+    let one = |root_item: Item, items_for_case: Vec<Item>, t: &mut Tally| {
+        let mut src = String::from("#[");
+        let p = print_item(&root_item, &mut src);
+        src.push_str("] struct S;");
+        let exp = ip.conv_enum(e.prog.root, &p);
+        let obs = (e.run)(&src);
+        judge(prop, idx, &e.prog, &items_for_case, &src, &exp, &obs, t);
+        t.states += 1;
+        t.transitions += 1;
+        match &exp.value {
+            Some(Val::Var(n, _)) => t.class(&format!("variant {n}")),
+            _ => {}
+        }
+        if t.samples.is_empty() && !exp.is_ok() && items_for_case.len() == 2 {
+            t.samples.push(json!({"program": e.prog.family, "src": src, "expected_leaves": format!("{:?}", exp.leaves), "observed": format!("{obs:?}")}));
+        }
+    };
+    for f in corpus::enum_root_forms(&e.prog) {
+        one(f.clone(), vec![f], t);
+    }
+    let alpha = corpus::enum_list_alphabet(&e.prog);
+    let a = alpha.len();
+    one(Item::list("e", vec![]), vec![Item::list("e", vec![])], t);
+    for len in 1..=maxlen {
+        let mut seq = vec![0usize; len];
+        loop {
+            let items: Vec<Item> = seq.iter().map(|i| alpha[*i].clone()).collect();
+            let root = Item::list("e", items);
+            one(root.clone(), vec![root], t);
+            let mut k = len;
+            let mut done = false;
+            loop {
+                if k == 0 {
+                    done = true;
+                    break;
+                }
+                k -= 1;
+                seq[k] += 1;
+                if seq[k] < a {
+                    break;
+                }
+                seq[k] = 0;
+            }
+            if done {
+                break;
+            }
+        }
+    }
+    // absent
+    if let Some(aux) = e.aux {
+        t.evaluations += 1;
+        t.traces += 1;
+        let want = match ip.from_none(&Ty::Enum(e.prog.root)) {
+            Some(v) => Val::some(v),
+            None => Val::None,
+        };
+        match aux("") {
+            Obs::Ok(v) if v == want => t.hit("from_none_checked"),
+            other => t.violate(Violation {
+                key: format!("{prop} family=[{}] from_none :: {other:?} expected {want:?}", e.prog.family),
+                what: format!("[{}] from_none() gave {other:?}, expected {want:?}", e.prog.family),
+                case: json!({"engine": "corpus", "program": idx, "items": [], "src": "<absent>"}),
+                detail: json!({}),
+            }),
+        }
+    }
+}
+
 /// Sequence length bound for a program: chosen so that the sequence tree stays below `budget`.
 pub fn seq_bound(alpha: usize, want: usize, budget: u64) -> usize {
     let mut l = want;
@@ -291,6 +365,17 @@ pub fn main(entries: Vec<Entry>) {
         }
         let items: Vec<Item> = serde_json::from_value(c["items"].clone()).unwrap();
         let e = &entries[idx];
+        if matches!(e.prog.decls[e.prog.root], Decl::Enum(_)) {
+            let mut src = String::from("#[");
+            let p = print_item(&items[0], &mut src);
+            src.push_str("] struct S;");
+            let exp = Interp::new(&e.prog).conv_enum(e.prog.root, &p);
+            let obs = (e.run)(&src);
+            let mut t = Tally::default();
+            judge(&prop, idx, &e.prog, &items, &src, &exp, &obs, &mut t);
+            println!("replay program {idx} [{}]\n  src: {src}\n  expected: {:?} {:?}\n  observed: {obs:?}", e.prog.family, exp.value, exp.leaves);
+            std::process::exit(if t.violations.is_empty() { 0 } else { 1 });
+        }
         let (src, exp) = build_case(&e.prog, &items);
         let obs = (e.run)(&src);
         let mut t = Tally::default();
@@ -309,7 +394,7 @@ pub fn main(entries: Vec<Entry>) {
         .iter()
         .enumerate()
         .flat_map(|(i, e)| {
-            let a = corpus::root_alphabet(&e.prog).len();
+            let a = if matches!(e.prog.decls[e.prog.root], Decl::Enum(_)) { 0 } else { corpus::root_alphabet(&e.prog).len() };
             std::iter::once((i, None)).chain((0..a).map(move |f| (i, Some(f))))
         })
         .collect();
@@ -317,9 +402,14 @@ pub fn main(entries: Vec<Entry>) {
         .par_iter()
         .map(|(i, first)| {
             let e = &entries[*i];
+            let mut t = Tally::default();
+            if matches!(e.prog.decls[e.prog.root], Decl::Enum(_)) {
+                explore_enum(&prop, *i, e, if thorough { 3 } else { 2 }, &mut t);
+                t.hit("programs");
+                return t;
+            }
             let alphabet = corpus::root_alphabet(&e.prog);
             let l = seq_bound(alphabet.len(), want_len, budget);
-            let mut t = Tally::default();
             explore_program(&prop, *i, e, *first, &alphabet, l, &mut t);
             if first.is_none() && prop == "C07" {
                 hostile_sweep(*i, e, &mut t);
